@@ -205,6 +205,13 @@ func init() {
 			})
 			vsched.Join("callers and closer done", func() bool { return done == 2 && closed })
 			vsched.WaitIdle("quiesce")
+			// pending calls: completed, failed with the scripted dial error, or a CLOSED status (never 'cancelled':
+			// the caller's own context was not cancelled, the client was closed)
+			for _, r := range results {
+				if contains(r, ":cancelled") {
+					x.Fail("a call pending at Close returns 'cancelled' instead of a closed status", "%v", results)
+				}
+			}
 			c19quiescent(x, c, vc, "after Close")
 			// terminal: every later call returns a closed status
 			if _, st := c.Conn(async.NoContext()); st.Code != status.CodeClosed {
